@@ -19,8 +19,14 @@ Nasty == <<"", " ", "\t", "\n", "-", "--", "'", "-'", ".", ". ", ",", "â€¦", "eÌ
 Req(L, n, text, pure) == [i |-> n, lang |-> L, texts |-> <<text>>, thrs |-> Params.thrs, want |-> Params.want, pure |-> pure, via |-> Params.vias[(n % Len(Params.vias)) + 1]]
 
 ExTextN(j, n) == Concat([d \in 1..n |-> Nasty[((j \div Pow(Len(Nasty), n - d)) % Len(Nasty)) + 1]])
+\* words and nasty atoms, mostly separated by blanks so that real multi-word numbers and ordinals occur among the noise
+MixSeps == <<" ", " ", " ", " ", "", ", ", ". ", "-", " \n">>
 RECURSIVE Mixed(_, _, _)
-Mixed(W, x, n) == IF n = 0 THEN "" ELSE (IF (x \div 64) % 2 = 0 THEN Pick(Nasty, Lcg(x)) ELSE Pick(W, Lcg(x))) \o Mixed(W, Lcg(Lcg(x)), n - 1)
+Mixed(W, x, n) == IF n = 0 THEN ""
+   ELSE (IF (x \div 64) % 4 = 0 THEN Pick(Nasty, Lcg(x)) ELSE Pick(W, Lcg(x))) \o (IF n = 1 THEN "" ELSE Pick(MixSeps, Lcg(Lcg(x)))) \o Mixed(W, Lcg(Lcg(Lcg(x))), n - 1)
+\* strings handed to the ISO-code lookup: degenerate, multi-byte, code-like prefixes
+Codes == Nasty \o <<"aÃ©", "Ã©a", "æ—¥æœ¬èªž", "â‚¬", "eÌn", "frðŸ˜€", "ðŸ˜€", "dÃ©", "iÌ‡t", "nl ", " pt", "EN", "e", "x", "zzz", "ital", "e-n", "en-US", "pt_BR">>
+LookupReq(n, code) == [i |-> n, lang |-> code, texts |-> <<"one un uno eins">>, thrs |-> <<"0">>, want |-> Params.want, pure |-> FALSE, via |-> "lookup"]
 RECURSIVE Dbl(_, _)
 Dbl(s, k) == IF k = 0 THEN s ELSE Dbl(s \o s, k - 1)        \* s repeated 2^k times
 Long(L) == LET W == Words[L] IN
@@ -33,11 +39,13 @@ ForLang(L, base) ==
       n1 == Pow(Len(Nasty), Params.exlen)
       ex == [j \in 1..n1 |-> Req(L, base + j, ExTextN(j - 1, Params.exlen), TRUE)]
       singles == [j \in 1..Len(Nasty) |-> Req(L, base + n1 + j, Nasty[j], TRUE)]
-      rnd == [r \in 1..Params.randn |-> Req(L, base + n1 + Len(Nasty) + r, Mixed(W, Start(Seed, 3 + Len(L), r), 2 + (r % 6)), FALSE)]
+      rnd == [r \in 1..Params.randn |-> Req(L, base + n1 + Len(Nasty) + r, Mixed(W, Start(Seed, 3 + Len(L), r), 2 + (r % 9)), FALSE)]
       lg == [j \in 1..Len(Long(L)) |-> Req(L, base + n1 + Len(Nasty) + Params.randn + j, Long(L)[j], FALSE)]
   IN singles \o ex \o rnd \o lg
 RECURSIVE All(_, _)
 All(k, base) == IF k > Len(Params.langs) THEN <<>>
                 ELSE LET part == ForLang(Params.langs[k], base) IN part \o All(k + 1, base + Len(part))
-ASSUME ndJsonSerialize(IOEnv.OUT, All(1, 0))
+Main == All(1, 0)
+Lookups == [j \in 1..Len(Codes) |-> LookupReq(Len(Main) + j, Codes[j])]
+ASSUME ndJsonSerialize(IOEnv.OUT, Main \o (IF "lookups" \in DOMAIN Params /\ Params.lookups THEN Lookups ELSE <<>>))
 =============================================================================
